@@ -100,11 +100,16 @@ var detMode = false
 // of 60-110 transfers written in one block, batches that time out with all their transfers, expiries
 // next to many dirty pool entries
 var blocksMode = false
+
+// manyBatches: a relayer that is far behind: more than 100 batches of one token wait on one chain (what a
+// paginated accessor would cut off)
+var manyBatches = false
 var lastCaseHashes []string
 var lastCaseShadowDiff = -1
 
 func genTokens(rng *Rng) []*types.TokenInfo {
 	prefixIds = (rng.Chance(1, 5) || directed) && !genesisMode
+	sharedIds := !prefixIds && rng.Chance(1, 4)
 	denoms := []string{"hub", "usdx", "eth"}
 	nd := 1 + rng.Intn(3)
 	if prefixIds && nd < 2 {
@@ -130,6 +135,10 @@ func genTokens(rng *Rng) []*types.TokenInfo {
 				ext = minterIds[perm[d]]
 			} else {
 				ext = ethAddrOf(byte(0xc0+16*d), len(ch))
+				if sharedIds && ch == "bsc" {
+					// the same contract address exists on both EVM chains, behind it a different asset
+					ext = ethAddrOf(byte(0xc0+16*((d+1)%nd)), len("ethereum"))
+				}
 				if prefixIds {
 					ext = ethAddrOf(0xc0, len(ch))[:10+16*d]
 				}
@@ -284,6 +293,9 @@ func runHubCase(seed uint64, nOps int, hostile bool, gov bool, restart bool, sta
 	// funding block: a few deposits applied by the first EndBlocker
 	funding := 2 + rng.Intn(4)
 	burstsLeft := 3
+	foreignLeft := 1
+	quietLeft := 1
+	manyDone := false
 	lastCaseHashes = nil
 	for len(ops) < nOps {
 		if detMode && rng.Chance(1, 10) {
@@ -304,6 +316,55 @@ func runHubCase(seed uint64, nOps int, hostile bool, gov bool, restart bool, sta
 		}
 		if deadlocked {
 			break
+		}
+		if blocksMode && inBlock && funding == 0 && foreignLeft > 0 && rng.Chance(1, 3) {
+			foreignLeft--
+			// many transfers that arrived from another chain expire in one block while their refund cannot be
+			// sent back (the token was delisted on the originating chain): every refund fails on its own and the
+			// transfers stay pooled; the EndBlocker has to get through all of them, in this and the next blocks
+			var tA, tB *types.TokenInfo
+			for _, a := range tokens {
+				for _, b := range tokens {
+					if a.Denom == b.Denom && a.ChainId != b.ChainId && (tA == nil || rng.Chance(1, 3)) {
+						tA, tB = a, b
+					}
+				}
+			}
+			if tA != nil {
+				nblock := func(dt int64) {
+					height++
+					timeMs += dt
+					do(&HubOp{Kind: 5, Height: height, TimeMs: timeMs})
+				}
+				if height%2 != 0 {
+					do(&HubOp{Kind: 6})
+					nblock(5000)
+				}
+				nb := 65 + rng.Intn(40)
+				for i := 0; i < nb && !deadlocked; i++ {
+					n, h := nextEvent(tA.ChainId)
+					amt := new(big.Int).Mul(big.NewInt(int64(1000+rng.Intn(9000))), pow10(int(tA.ExternalDecimals)))
+					do(&HubOp{Kind: 4, Chain: tA.ChainId, Ev: &HubEvent{Kind: 2, Nonce: n, Coin: tA.ExternalTokenId, Amount: amt,
+						Fee: new(big.Int).Div(amt, big.NewInt(int64(20+rng.Intn(50)))), Sender: ethAddrOf(0xe0, rng.Intn(3)), RChain: tB.ChainId,
+						Receiver: ethAddrOf(0xe0, rng.Intn(3)), Height: h, TxHash: fmt.Sprintf("0xfgn%s%d", tA.ChainId, n)}})
+				}
+				do(&HubOp{Kind: 6})
+				var rest []*types.TokenInfo
+				for _, t := range tokens {
+					if t != tA {
+						rest = append(rest, t)
+					}
+				}
+				tokens = rest
+				do(genEnv())
+				nblock(62000)
+				do(&HubOp{Kind: 6})
+				nblock(5000)
+				do(&HubOp{Kind: 6})
+				inBlock = false
+				stats["foreign_burst_failing_refunds"]++
+			}
+			continue
 		}
 		if blocksMode && inBlock && funding == 0 && burstsLeft > 0 && rng.Chance(1, 6) {
 			burstsLeft--
@@ -378,6 +439,43 @@ func runHubCase(seed uint64, nOps int, hostile bool, gov bool, restart bool, sta
 				do(&HubOp{Kind: 6})
 				inBlock = false
 			}
+			continue
+		}
+		if manyBatches && !manyDone && inBlock && funding == 0 {
+			manyDone = true
+			var t *types.TokenInfo
+			u := 0
+			for _, c := range tokens {
+				for i := 0; i < 3; i++ {
+					if c.ChainId != "minter" && env.Bank.GetBalance(env.Ctx, userAddr(i), c.Denom).Amount.BigInt().Cmp(pow10(9)) > 0 {
+						t, u = c, i
+					}
+				}
+			}
+			if t != nil {
+				nb := 101 + rng.Intn(8)
+				for i := 0; i < nb; i++ {
+					txCounter++
+					do(&HubOp{Kind: 1, Sender: userAddr(u).String(), Chain: t.ChainId, Recipient: ethAddrOf(0xe0, rng.Intn(3)), Denom: t.Denom,
+						Amount: big.NewInt(int64(100000 + rng.Intn(1000))), Fee: big.NewInt(int64(1 + rng.Intn(5))), TxBytes: []byte(fmt.Sprintf("tx%d", txCounter))})
+					do(&HubOp{Kind: 3, Chain: t.ChainId, Denom: t.Denom, Sender: userAddr(u).String()})
+				}
+				stats["many_batches"]++
+			}
+			continue
+		}
+		if !inBlock && quietLeft > 0 && funding == 0 && rng.Chance(1, 6) && len(batchesOf("ethereum"))+len(batchesOf("bsc")) > 0 {
+			// a quiet stretch: batches wait for a relayer while no event of their chain is observed; hub blocks
+			// (and hub time) go by, the external height known to the hub does not move
+			quietLeft--
+			nq := 4 + rng.Intn(14)
+			for i := 0; i < nq && !deadlocked; i++ {
+				height++
+				timeMs += 5000
+				do(&HubOp{Kind: 5, Height: height, TimeMs: timeMs})
+				do(&HubOp{Kind: 6})
+			}
+			stats["quiet_stretches"]++
 			continue
 		}
 		if !inBlock {
